@@ -21,6 +21,7 @@ pub fn def() -> PropDef {
         block: 1,
         flavours: &["tokio"],
         outcome: None,
+        extra_profiles: &["C01", "C02", "C03", "C04", "C05"],
     }
 }
 
@@ -199,7 +200,10 @@ pub fn check(v: &View) -> Vec<Violation> {
         // detach leaves the actor running and answering
         for o in v.ops.iter().filter(|o| o.target == Some(aidx) && matches!(o.inner, Op::Detach { .. }) && matches!(o.res, Some(Res::Ok))) {
             let stop_before = v.stop_requests(aidx).iter().map(|r| r.begin).min().unwrap_or(u64::MAX);
-            for c in v.ops.iter().filter(|c| c.client == o.client && c.idx > o.idx && matches!(c.inner, Op::Call { .. }) && c.ended()) {
+            let Op::Detach { to, .. } = o.inner else { continue };
+            // calls through the detached address, until that slot is given up
+            let until = v.ops.iter().filter(|c| c.client == o.client && c.idx > o.idx && matches!(c.inner, Op::Drop { h } | Op::Halt { h } | Op::Give { h, .. } | Op::Await { h, on_clone: false } if h == to)).map(|c| c.idx).min().unwrap_or(u32::MAX);
+            for c in v.ops.iter().filter(|c| c.client == o.client && c.idx > o.idx && c.idx < until && matches!(c.inner, Op::Call { h, .. } if h == to) && c.ended()) {
                 if c.end.unwrap() < stop_before && !v.fault_injected(a) {
                     crate::log::probe("c17_detached_checked");
                     if !matches!(c.res, Some(Res::Reply(_))) {
